@@ -216,6 +216,23 @@ def run_shard(shard, ctx):
                     return
                 check(ctx, skeleton(sync=sbody, track=tbody), seen, "sync body %r x track body %r" % (sbody, tbody))
     else:
+        # LONG tempo maps (1200 / 3000 tempo lines) with sparse chains of every other kind: the first section /
+        # lyric / text / note / phrase / track event / time signature only after all of them, one sustain spanning
+        # them all, an event every 500 tempo lines - scale must not turn into an internal error either
+        for n in (1200, 3000):
+            tempo = ["%d = B %d" % (2 * i, 120000 + (i % 7) * 1000) for i in range(n)]
+            after = 2 * n + 5
+            for what, kw in (
+                ("section", dict(events=['%d = E "section s"' % after])),
+                ("lyric and text", dict(events=['%d = E "lyric l"' % after, '%d = E "t"' % after])),
+                ("note", dict(track=["%d = N 1 0" % after])),
+                ("phrase and track event", dict(track=["%d = S 2 4" % after, "%d = E solo" % after])),
+                ("time signature", dict(sync=["0 = TS 4"] + tempo + ["%d = TS 3" % after])),
+                ("spanning sustain", dict(track=["0 = N 2 %d" % after])),
+                ("event every 500 tempo lines", dict(events=['%d = E "x"' % (1000 * k) for k in range(n // 500)], track=["%d = N 0 0" % (1000 * k + 1) for k in range(n // 500)])),
+            ):
+                kw.setdefault("sync", ["0 = TS 4"] + tempo)
+                check(ctx, skeleton(**kw), seen, "tempo map of %d lines, first %s behind it" % (n, what))
         tb = [[]] + [[x] for x in BODY["track"]] + [[x, y] for x in BODY["track"] for y in BODY["track"]]
         for res in ("1", "99999999"):
             for bpm in ("1", "99999999"):
